@@ -34,22 +34,37 @@ _TEXT_IDENTITY = ('::deref', '::to_string', '::to_owned', '::clone', '::as_str',
                   'cell::Cell::to_xstr', 'state::State::pop_data', '::value', '::as_bytes')
 
 
-def _phi_alts(e):
-    """the alternatives a value can be (phi nodes opened, references looked through)"""
-    if isinstance(e, tuple) and e[0] in ('ref', 'deref') and len(e) > 1:
-        return _phi_alts(e[-1])
-    if isinstance(e, tuple) and e[0] == 'phi':
+def _phi_alts(e, cap=32):
+    """the alternatives a value can be: phi nodes opened wherever they stand (a call of alternatives is the alternatives of the call)"""
+    import itertools
+    if not isinstance(e, tuple) or not e:
+        return [e]
+    if e[0] == 'phi':
         out = []
         for a in e[1:]:
             for x in (a if isinstance(a, (list, tuple)) and a and not isinstance(a[0], str) else [a]):
-                out += _phi_alts(x)
-        return out
+                out += _phi_alts(x, cap)
+        return out[:cap]
+    if e[0] == 'ref' and len(e) == 3:
+        return [('ref', e[1], x) for x in _phi_alts(e[2], cap)]
+    if e[0] == 'proj' and len(e) >= 2:
+        return [('proj', x) + tuple(e[2:]) for x in _phi_alts(e[1], cap)]
+    if e[0] == 'call' and len(e) >= 3 and isinstance(e[2], tuple):
+        per = [_phi_alts(a, cap) for a in e[2]]
+        combos = list(itertools.islice(itertools.product(*per), cap))
+        return [('call', e[1], tuple(c)) + tuple(e[3:]) for c in combos]
     return [e]
+
+
+def _is_padding_trim(x):
+    """trim_end_matches('=') / trim_matches('='): dropping the padding is not a mapping of the text's characters"""
+    return x[1].endswith(('::trim_end_matches', '::trim_matches')) and len(x[2]) == 2 and isinstance(x[2][1], tuple) \
+        and x[2][1][0] == 'const' and isinstance(x[2][1][1], dict) and x[2][1][1].get('v') == 61
 
 
 def _text_as_read(e):
     """e is the popped text itself: only conversions between string types stand between Cell::to_xstr and e"""
-    calls = [x[1] for x in expr_walk(e) if isinstance(x, tuple) and x and x[0] == 'call']
+    calls = [x[1] for x in expr_walk(e) if isinstance(x, tuple) and x and x[0] == 'call' and not _is_padding_trim(x)]
     return any(c == 'cell::Cell::to_xstr' for c in calls) and all(any(c.endswith(t) for t in _TEXT_IDENTITY) for c in calls) \
         and not any(isinstance(x, tuple) and x and x[0] == 'closure' for x in expr_walk(e))
 
@@ -249,7 +264,7 @@ def check_decoder(rep, fx, name, dec):
                     for a in e[2]:
                         if 'base32::encode' in expr_str(a, -30):
                             continue
-                        if any(_text_as_read(alt) for alt in _phi_alts(a)):
+                        if any(_text_as_read(alt) for alt in _phi_alts(a)):  
                             as_read = True
         if encs and cmp_guard and not as_read:
             rep.add('C18.R3', key + ':canonical-text-only', False,
